@@ -78,7 +78,7 @@ def check(ctx):
                     edge=lambda a: a.kind == "variant" and a.name == "Some", edge_label="edge `self.0` is Some")
     # ---- cqueue
     CD = "<may::cqueue::Cqueue as std::ops::Drop>::drop"
-    POLL = Call(re.escape(CQ) + "::poll", transitive=False)
+    POLL = Call(re.escape(CQ) + "::poll", transitive=True)
     ctx.order(CD, GUARD, POLL, "cqueue/drain-cancel-masked", "the final drain of a cqueue runs with the owner's cancel disabled (a Cancel panic out of Drop would free the Cqueue while select coroutines still use it)", rule="R-EXIT")
     ctx.guarded(CD, Ev("ret"), lambda a: a.kind == "variant" and a.name == "Finished", "cqueue/drop-leaves-only-when-finished",
                 "Drop for Cqueue returns only after poll reported Finished", pred_label="edge `poll()` is Err(Finished)")
@@ -92,7 +92,15 @@ def check(ctx):
                         "only unfinished selectors are cancelled", pred_label="edge `is_done()` is false")
         ctx.ob("R-ORDER", CD, "cqueue/cancels-selectors", ok, "Drop for Cqueue cancels the unfinished select coroutines before draining" if ok else "Drop for Cqueue no longer cancels its select coroutines", f.where())
         ctx.order(CD, Call(r"std::iter::Iterator::fold|.*Iterator.*::fold|.*::for_each"), POLL, "cqueue/cancel-then-drain", "selectors are cancelled before the drain loop waits for them")
+    # a selector panic surfacing in the drain must not leave the drop before Finished
+    ctx.guarded(CD, Call(r"std::panic::resume_unwind", transitive=False), lambda a: a.kind == "variant" and a.name == "Finished", "cqueue/reraise-only-after-finished",
+                "Drop for Cqueue re-raises a selector panic only after the drain reported Finished (all select coroutines have ended)", pred_label="edge `poll()` is Err(Finished)")
+    ctx.must_call(CD, Call(r"std::panic::catch_unwind", transitive=False), "cqueue/drain-catches-panics",
+                  "the drain loop runs poll under catch_unwind: a selector panic re-raised by check_panic cannot unwind out of Drop while other selectors still run")
+    ctx.guarded(CD, Call(r"std::panic::resume_unwind", transitive=False), lambda a: a.kind == "truth" and a.truth is False and root_of(a.origin)[0] == "call" and root_of(a.origin)[2] == "std::thread::panicking",
+                "cqueue/no-double-panic-in-drop", "the drop re-raises only when it did not start while unwinding", pred_label="edge `unwinding` is false")
     PL = CQ + "::poll"
+    shared.cqueue_finished_rules(ctx)
     cnt_zero = lambda a: a.kind == "cmp" and a.op == "Eq" and is_call_result(A("load"), CQ + ".cnt")(a.a) and is_const(0)(a.b)
     ctx.guarded(PL, Agg("may::cqueue::PollError", "Finished", transitive=False), cnt_zero, "cqueue/finished-only-if-cnt-zero", "poll reports Finished only behind `cnt == 0`",
                 pred_label="edge `cnt.load() == 0`")
